@@ -12,6 +12,13 @@ from .dataflow import ReachingDefs
 from .index import ClassInfo, FunctionInfo
 
 
+class _Dead:
+    kind, lineno, id = "dead", 0, -1
+
+
+_DEAD = _Dead()
+
+
 class FA:
     """function analysis: CFG + reaching definitions + path facts for one function"""
 
@@ -80,6 +87,9 @@ class FA:
         F = self.facts(assume, await_kills)
         missing_all = []
         witness = ""
+        if all(F.at(n) is None for n in self.cfg_nodes(ast_node)):
+            # dead code satisfies any "only under G" vacuously, but every rule here also means "the mechanism exists"
+            return False, [("<reachable>", True)], "the construct is unreachable on every feasible path (dead code): the mechanism cannot take effect"
         for n in self.cfg_nodes(ast_node):
             ok, missing = F.holds(n, guard)
             if not ok:
@@ -183,6 +193,8 @@ class FA:
         """on every feasible path entry -> (node evaluating target_ast), a node evaluating something
         that satisfies first_pred occurs first.  returns None if it holds, else a witness path."""
         targets = self.cfg_nodes(target_ast)
+        if not self.reachable(target_ast, assume):
+            return [_DEAD]
         avoid = lambda n: self.evaluates(n, first_pred)
         # the target node itself may contain the `first` expression (e.g. f(g(x))): then fine
         targets = [t for t in targets if not self.evaluates(t, lambda s: first_pred(s) and s is not target_ast
@@ -196,6 +208,8 @@ class FA:
         """after evaluating from_ast, every feasible normal path to EXIT passes a node satisfying
         then_pred.  returns None if it holds, else a witness path."""
         srcs = self.cfg_nodes(from_ast)
+        if not self.reachable(from_ast, assume):
+            return [_DEAD]
         targets = [self.cfg.exit] if "exit" in stop else []
         if "raise" in stop:
             targets.append(self.cfg.raise_exit)
@@ -203,7 +217,13 @@ class FA:
         return self.path(srcs, targets, avoid=avoid, assume=assume, include_exc=include_exc)
 
     def fmt_path(self, p):
+        if p and p[0] is _DEAD:
+            return "<the construct is unreachable on every feasible path (dead code)>"
         return " -> ".join(f"L{n.lineno}" if n.kind not in ("entry", "exit", "raise") else n.kind for n in p)
+
+    def reachable(self, ast_node, assume=()):
+        F = self.facts(assume)
+        return any(F.at(n) is not None for n in self.cfg_nodes(ast_node))
 
     # ---------------------------------------------------------------- data flow
     def expand(self, expr, keep=()):
